@@ -1,4 +1,5 @@
 #![allow(dead_code)]
+mod checksum;
 mod dynafed;
 mod fmr;
 mod issuance;
@@ -30,6 +31,8 @@ fn main() {
         ("dynafed", "headers") => dynafed::replay_headers(rest, &mut out),
         ("issuance", "replay") => issuance::replay(rest, &mut out),
         ("issuance", "json") => issuance::json_contract(rest, &mut out),
+        ("checksum", "lfsr") => checksum::lfsr(rest, &mut out),
+        ("checksum", "corrupt") => checksum::corrupt(rest, &mut out),
         ("dynafed", "record") => dynafed::record(rest, &mut out),
         (m, c) => {
             eprintln!("unknown command {} {}", m, c);
